@@ -38,6 +38,7 @@ double canary_race(double); double canary_memo(double);
 struct Region { char* p; size_t n; };
 static std::vector<Region> regions;         // library statics (+ canary state)
 static uint32_t *guard_lo = nullptr, *guard_hi = nullptr;
+static size_t tls_bytes = 0;
 
 static void add_minus(char* lo, char* hi, std::vector<std::pair<char*, char*>> cuts) {
    std::sort(cuts.begin(), cuts.end());
@@ -59,6 +60,10 @@ static int phdr_cb(struct dl_phdr_info* info, size_t, void*) {
       for (int k = 0; k < covsig::n_ranges; k++) { char* a = (char*)covsig::ranges[k].lo; char* b = (char*)covsig::ranges[k].hi; if (a >= lo && b <= hi) { c2.push_back({a, b}); guard_lo = covsig::ranges[k].lo; guard_hi = covsig::ranges[k].hi; } }
       add_minus(lo, hi, c2);
    }
+   // thread-local storage of the library (block of the calling = main thread, where the history pass runs):
+   // a `static thread_local` object keeps state between calls just as a plain static does
+   if (info->dlpi_tls_data) for (int i = 0; i < info->dlpi_phnum; i++) { const ElfW(Phdr)& ph = info->dlpi_phdr[i];
+      if (ph.p_type == PT_TLS && ph.p_memsz) { regions.push_back({(char*)info->dlpi_tls_data, (size_t)ph.p_memsz}); tls_bytes += ph.p_memsz; } }
    return 0;
 }
 static void find_regions() {
@@ -311,11 +316,11 @@ int main(int argc, char** argv) {
    covsig::hook = hook;
    if (cmd == "info") {
       size_t tot = 0; for (auto& r : regions) tot += r.n;
-      std::printf("INFO guards=%u guard_array=%zu regions=%zu monitored_bytes=%zu ops=%zu\n", covsig::n_guards, (size_t)((char*)guard_hi - (char*)guard_lo), regions.size(), tot, all_ops.size());
+      std::printf("INFO guards=%u guard_array=%zu regions=%zu monitored_bytes=%zu tls_bytes=%zu ops=%zu\n", covsig::n_guards, (size_t)((char*)guard_hi - (char*)guard_lo), regions.size(), tot, tls_bytes, all_ops.size());
       for (size_t i = 0; i < all_ops.size(); i++) std::printf("OP %zu %s\n", i, all_ops[i].name.c_str());
       return 0;
    }
-   if (cmd == "history") return history(std::atoi(argv[3])) ? 1 : 0;
+   if (cmd == "history") { int f = history(std::atoi(argv[3])); std::fflush(stdout); _exit(f ? 1 : 0); }   // no static/thread_local destructors on restored images
    if (cmd == "canary") {
       int op[2], ps[2] = {0, 1}; for (size_t i = 0; i < all_ops.size(); i++) if (all_ops[i].name == "CANARY_race") op[0] = op[1] = (int)i;
       int f = explore(2, op, ps, 2, 1);
